@@ -85,6 +85,9 @@ pub fn payload(mode: Mode, len: usize, strict_class: bool) -> BoxedStrategy<(Vec
                 .prop_map(|v| (v, "byte_mode_indicator_nibbles")),
             1 => vec(prop_oneof![32u8..127, 0xC3u8..=0xC3, 0x80u8..0xC0], len).prop_map(|v| (v, "byte_textish")),
             1 => vec(b'a'..=b'z', len).prop_map(|v| (v, "byte_lowercase")),
+            // periodic content: the whole symbol becomes a regular texture (thousands of identical runs / windows)
+            1 => any::<u8>().prop_map(move |b| (vec![b; len], "byte_constant")),
+            1 => (vec(any::<u8>(), 1..5), any::<u8>()).prop_map(move |(unit, _)| ((0..len).map(|i| unit[i % unit.len()]).collect(), "byte_periodic")),
             // narrower classes: only stay as they are when the mode is forced (strict_class re-classes them)
             1 => vec(b'0'..=b'9', len).prop_map(|v| (v, "byte_digits_only")),
             1 => vec(0usize..45, len).prop_map(|v| (v.into_iter().map(|i| ALNUM_SET[i]).collect(), "byte_alnum_only")),
